@@ -209,6 +209,7 @@ def run(ck, facts):
     # bridge structs: the C and C++ struct generators declare every field, in order (rule shared with C07 / C08)
     import c07
     c07.field_walk_rules(ck, "R3", facts, {"c", "cpp"})
+    c07.trait_vtable_rules(ck, "R3", facts, {"c"})
 
     # ---------------- R4 argument order
     gm = tool.fn("c::ty::TyGenContext::gen_method")
